@@ -94,6 +94,7 @@ func (ex *Exec) doCall(st *State, cc *ssa.CallCommon, fnv *Val, args []*Val, sit
 			}
 		}
 		ex.safetyCall(st, "nil", Neq(fnv.T, IntLit(0, fnv.T.Sort)), site)
+		ex.interfere(st, key)
 		if nat, ok := natives[key]; ok {
 			return nat(ctx)
 		}
@@ -118,6 +119,7 @@ func (ex *Exec) doCall(st *State, cc *ssa.CallCommon, fnv *Val, args []*Val, sit
 	}
 	ctx.key = ex.funcValueKey(st, cc.Value)
 	ex.safetyCall(st, "nil", Neq(fnv.T, IntLit(0, fnv.T.Sort)), site)
+	ex.interfere(st, ctx.key)
 	if nat, ok := natives[ctx.key]; ok {
 		return nat(ctx)
 	}
